@@ -24,6 +24,8 @@ pub enum LoadError {
     InvalidIncludeGlob(#[from] glob::PatternError),
     #[error("failed to match glob pattern")]
     GlobFailure(#[from] glob::GlobError),
+    #[error("file {0} is included recursively")]
+    RecursiveInclude(PathBuf),
 }
 
 /// Loader is an object to keep loading a given file and may recusrively load them as `repr::LedgerEntry`,
@@ -76,13 +78,15 @@ impl<F: FileSystem> Loader<F> {
         Deco: syntax::decoration::Decoration,
     {
         let popts = parse::ParseOptions::default().with_error_style(self.error_style.clone());
-        self.load_impl(&popts, &self.source, &mut callback)
+        self.load_impl(&popts, &self.source, &mut Vec::new(), &mut callback)
     }
 
     fn load_impl<T, E, Deco>(
         &self,
         parse_options: &parse::ParseOptions,
         path: &Path,
+        // stack of the files being loaded, to detect the recursive include.
+        loading: &mut Vec<PathBuf>,
         callback: &mut T,
     ) -> Result<(), E>
     where
@@ -91,6 +95,10 @@ impl<F: FileSystem> Loader<F> {
         Deco: syntax::decoration::Decoration,
     {
         let path: Cow<'_, Path> = self.filesystem.canonicalize_path(path);
+        if loading.iter().any(|x| x == path.as_ref()) {
+            return Err(LoadError::RecursiveInclude(path.into_owned()).into());
+        }
+        loading.push(path.as_ref().to_owned());
         let content = self
             .filesystem
             .file_content_utf8(&path)
@@ -124,13 +132,14 @@ impl<F: FileSystem> Loader<F> {
                     }
                     paths.sort_unstable();
                     for path in &paths {
-                        self.load_impl(parse_options, path, callback)?;
+                        self.load_impl(parse_options, path, loading, callback)?;
                     }
                     Ok(())
                 }
                 _ => callback(&path, &ctx, &entry),
             }?;
         }
+        loading.pop();
         Ok(())
     }
 }
